@@ -516,6 +516,51 @@ def reused_buffer(s, label, entries, obs=None, may_write=()):
         s.extra.setdefault("reused_buffer", {})[f"{label}:{name}"] = len(inputs)
 
 
+def storage_twins(bits01, with_bytes=False):
+    """containers a careless cache key (tobytes(), bytes(x), id-free `==`) confuses with each other; yields (kind, object, its bit string):
+    the plain big-endian bitarray; a little-endian bitarray over the SAME storage octets (= another bit string: every octet read backwards);
+    a little-endian bitarray with the SAME bit string (= other storage octets); and, for entry points that take octets, the bytes"""
+    be = bitarray(bits01)
+    yield "big_endian", be, bits01
+    t = bitarray(endian="little")
+    t.frombytes(be.tobytes())
+    del t[len(be):]
+    yield "little_endian_same_octets", t, t.to01()
+    yield "little_endian_same_bits", bitarray(bits01, endian="little"), bits01
+    if with_bytes and len(bits01) % 8 == 0:
+        yield "bytes", be.tobytes(), bits01
+
+
+def storage_twin_histories(s, label, entries):
+    """entries: (name, call(container) -> result, [bit strings], ok(result, bits01) -> bool, with_bytes).  For every entry point all ordered
+    pairs of (bit string, container kind) items are called back to back in one process; every single result must satisfy the check's own
+    oracle `ok` for the bit string its container holds.  A memo keyed by storage octets answers the second call of a pair for the first."""
+    from .report import exc_sig
+
+    for name, call, strings, ok, with_bytes in entries:
+        items = []
+        for b in strings:
+            for kind, obj, bits in storage_twins(b, with_bytes):
+                items.append((kind, obj, bits))
+        n = 0
+        for ka, oa, ba_ in items:
+            for kb, ob, bb in items:
+                case = {"entry_point": name, "first": [ka, hex(int(ba_, 2))], "second": [kb, hex(int(bb, 2))]}
+                for which, (k_, o_, b_) in (("first", (ka, oa, ba_)), ("second", (kb, ob, bb))):
+                    try:
+                        arg = o_ if isinstance(o_, bytes) else o_.copy()
+                        good = ok(call(arg), b_)
+                    except Exception as e:  # noqa: BLE001
+                        s.violation(f"storage_twins:exception:{label}:{name}:" + exc_sig(e), {**case, "call": which}, repr(e))
+                        continue
+                    if not good:
+                        s.violation(f"storage_twins:wrong_result_in_a_history_of_storage_twins:{label}:{name}", {**case, "call": which},
+                                    "two calls back to back on containers that share storage octets or a bit string: a call does not give the result for the bits its own container holds")
+                n += 1
+                s.case(nontrivial=(ka, ba_) != (kb, bb), calls=2, outcome="twin_pair", sample=case if len(s.samples) < 1 else None)
+        s.extra.setdefault("storage_twin_pairs", {})[f"{label}:{name}"] = n
+
+
 # ----------------------------------------------------------------------------------------------
 # objects built with default arguments
 # ----------------------------------------------------------------------------------------------
